@@ -31,7 +31,10 @@ def binders : Tok → Tok → List Tok → List Nat
     | .id n =>
       let next := rest.headD .lit
       let next2 := (rest.drop 1).headD .lit
-      let afterKw := (prev == .bkw || (prev == .kwmut && pp == .bkw)) && !(isP next ':' && isP next2 ':') && !(isP next '!')
+      let next3 := (rest.drop 2).headD .lit
+      -- `let x: ::core::..` (a type annotation that starts with an absolute path) binds `x`; `let X::V(..) = ..` does not
+      let pathHead := isP next ':' && isP next2 ':' && !isP next3 ':'
+      let afterKw := (prev == .bkw || (prev == .kwmut && pp == .bkw)) && !pathHead && !(isP next '!')
       let beforeColon := isP next ':' && !isP next2 ':' && !(isP prev ':')
       let genericParam := (isP prev '<' || isP prev ',') && (isP next ',' || isP next '>') && pp != .lit && false
       if afterKw || beforeColon || genericParam then n :: tl else tl
